@@ -23,6 +23,10 @@ ASSUMPTIONS = []
 ETH = [2, 0, 0, 0, 0, 1, 2, 0, 0, 0, 0, 2]
 
 
+class PackWorkExceeded(RuntimeError):
+  pass
+
+
 def chain(p):
   out = []
   pb = None
@@ -55,7 +59,19 @@ def examine(ctx, pkt, raw, tag=''):
     d = pkt.dump(); dry_render(d) if isinstance(d, SymStr) else None
   else:
     str(pkt); pkt.dump()
-  pkt.pack()
+  # re-serialising does a bounded amount of work: every layer is packed a constant number of times (a checksum routine that packs its
+  # payload again doubles the work at every tunnel level: 2^depth packs for a frame of ordinary size)
+  layers = sum(1 for x in ch if isinstance(x, pb))
+  orig = pb.pack; cnt = [0]
+  def counted(self):
+    cnt[0] += 1
+    if cnt[0] > 4 * layers + 8: raise PackWorkExceeded("more than %d pack() calls for %d layers" % (4 * layers + 8, layers))
+    return orig(self)
+  pb.pack = counted
+  try:
+    pkt.pack()
+  finally:
+    pb.pack = orig
   ctx.witness('examined')
 
 
@@ -92,7 +108,35 @@ TEMPLATES = {
   # Run under CPython's default recursion limit (1000), which is what a POX process has.
   'vlan_stack': lambda n: ETH + [0x81, 0x00],
   'mpls_stack': lambda n: ETH + [0x88, 0x47],
+  # tunnels inside tunnels: Ethernet/IPv4/UDP/VXLAN/Ethernet/..., IPv4/ICMP-unreachable quoting IPv4/ICMP-unreachable/..., IPv4/GRE/IPv4/GRE/... and
+  # IPv4/GRE/Ethernet/IPv4/GRE/...; as many levels as fit into a frame of n bytes (n = 9014 is a jumbo frame; a packet-in may carry up to 65517 bytes),
+  # parsed under CPython's default recursion limit.  Short ones (a dozen levels) bound the *work* of re-serialising: every layer is packed O(1) times.
+  'nest_vxlan': lambda n: [], 'nest_icmp': lambda n: [], 'nest_gre': lambda n: [], 'nest_greeth': lambda n: [],
 }
+
+
+def _ip(proto, total): return [0x45, 0, (total >> 8) & 255, total & 255, 0, 1, 0, 0, 64, proto, 0, 0, 10, 0, 0, 1, 10, 0, 0, 2]
+
+
+def nest(name, n, sym):
+  """inside-out construction; sym = 8 symbolic bytes placed in the innermost datagram and the outermost tunnel header"""
+  inner = _ip(17, 28) + [sym[0], sym[1], sym[2], sym[3], 0, 8, 0, 0]
+  if name == 'nest_vxlan':
+    cur = ETH + [0x08, 0x00] + inner
+    while len(cur) + 50 <= n:
+      v = [0x08, 0, 0, 0, 0, 0, len(cur) & 255, 0] + cur
+      u = [sym[4] if len(cur) + 50 > n - 50 else 0x12, 0xb5, 0x12, 0xb5, ((8 + len(v)) >> 8) & 255, (8 + len(v)) & 255, 0, 0] + v
+      cur = ETH + [0x08, 0x00] + _ip(17, 20 + len(u)) + u
+    return cur
+  cur = inner
+  per = {'nest_icmp': 28, 'nest_gre': 24, 'nest_greeth': 38}[name]
+  while len(cur) + per + 14 <= n:
+    last = len(cur) + 2 * per + 14 > n
+    if name == 'nest_icmp': body = [3, sym[5] if last else 1, 0, 0, 0, 0, 0, 0] + cur; proto = 1
+    elif name == 'nest_gre': body = [0, 0, 0x08, 0x00] + cur; proto = 47
+    else: body = [0, 0, 0x65, 0x58] + ETH + [0x08, 0x00] + cur; proto = 47
+    cur = _ip(proto, 20 + len(body)) + body
+  return ETH + [0x08, 0x00] + cur
 
 
 def ip_template(proto, sport=None, dport=None):
@@ -106,7 +150,7 @@ def h_template(ctx, name, n, proto=None, ports=None):
   env.quiet()
   pkt_mod = ctx.pox('pox.lib.packet')
   pre = TEMPLATES[name](n)
-  body = list(ctx.bytes('body', n - len(pre)))
+  body = list(ctx.bytes('body', (n - len(pre)) if not name.startswith('nest_') else 8))
   if name == 'ip' and proto is not None and len(body) >= 20:
     body[0] = 0x45                  # version 4, IHL 5 so that the transport parser is reached
     body[6] = body[6] & 0xe0 if False else body[6]
@@ -144,7 +188,8 @@ def h_template(ctx, name, n, proto=None, ports=None):
     bootp = [1, 1, 6, 0] + list(sym[3:7]) + [0] * 20 + [2, 0, 0, 0, 0, 1] + [0] * 10 + [0] * 192 + [0x63, 0x82, 0x53, 0x63]
     udplen = 8 + len(bootp) + len(opts); iplen = 20 + udplen
     body = [0x45, 0, iplen >> 8, iplen & 255, 0, 1, 0, 0, 64, 17, 0, 0, 0, 0, 0, 0, 255, 255, 255, 255] + [0, 68, 0, 67, udplen >> 8, udplen & 255, 0, 0] + bootp + opts
-  deep = name in ('vlan_stack', 'mpls_stack')
+  deep = name in ('vlan_stack', 'mpls_stack') or name.startswith('nest_')
+  if name.startswith('nest_'): pre = []; body = nest(name, n, body)
   if name == 'vlan_stack':
     k = (n - 14 - 4) // 4
     sym = body
@@ -185,6 +230,8 @@ def obligations(tier):
   t.append(dict(name='tcp_long', n=330)); t.append(dict(name='tcp_mptcp', n=90)); t.append(dict(name='dhcp_long', n=30))
   for n in (1378, 1458, 1514): t.append(dict(name='vlan_stack', n=n))
   for n in (1378, 1514): t.append(dict(name='mpls_stack', n=n))
+  for name, lens in (('nest_vxlan', [600, 1514, 9014]), ('nest_icmp', [400, 9014]), ('nest_gre', [400, 9014]), ('nest_greeth', [500, 9014])):
+    for n in lens + ([65517] if thorough else []): t.append(dict(name=name, n=n))
   for proto, lens in ((1, [34, 38, 42, 46, 62, 66, 70]), (6, [34, 54, 56] + ([58, 62] if thorough else [])), (17, [34, 42, 46]), (2, [34, 42, 46, 50, 54, 58]),
                       (47, [34, 38, 42, 46]), (99, [34, 38])):
     for n in lens: t.append(dict(name='ip', n=n, proto=proto))
@@ -193,7 +240,7 @@ def obligations(tier):
     for n in lens: t.append(dict(name='ip', n=n, proto=17, ports=ports))
   for proto, lens in ((58, [54, 58, 62, 78]), (17, [54, 62]), (6, [54, 74]), (0, [54, 62, 70]), (43, [58, 62]), (44, [55, 58, 61, 62]), (60, [58, 62])):
     for n in lens: t.append(dict(name='ipv6', n=n, proto=proto))
-  if not thorough: t = [c for i, c in enumerate(t) if c['n'] <= 58 or (c['name'] == 'ipv6' and c.get('proto') in (43, 44, 60)) or c.get('ports') == (68, 67) or c.get('proto') == 1 or c['name'] in ('tcp_long', 'tcp_mptcp', 'dhcp_long', 'vlan_stack', 'mpls_stack')]
+  if not thorough: t = [c for i, c in enumerate(t) if c['n'] <= 58 or (c['name'] == 'ipv6' and c.get('proto') in (43, 44, 60)) or c.get('ports') == (68, 67) or c.get('proto') == 1 or c['name'] in ('tcp_long', 'tcp_mptcp', 'dhcp_long', 'vlan_stack', 'mpls_stack') or c['name'].startswith('nest_')]
   BOUNDS[tier] = dict(random_frame_lengths=rnd, templates=len(t), template_note="dispatch fields fixed, all other bytes (incl. every length/offset field) symbolic, "
                       "frame length = truncation point")
   return [
